@@ -44,6 +44,8 @@ fn seq_one() {
 fn seq_replay() {
   let diff_out = arg("--diff-out");
   let sample_out = arg("--sample-out");
+  let bad_out = arg("--bad-out");
+  let mut bfile = bad_out.map(|p| std::io::BufWriter::new(std::fs::File::create(p).unwrap()));
   let sample_every: u64 = arg("--sample-every").and_then(|s| s.parse().ok()).unwrap_or(0);
   let id_base: u64 = arg("--id-base").and_then(|s| s.parse().ok()).unwrap_or(0);
   let mut dfile = diff_out.map(|p| std::io::BufWriter::new(std::fs::File::create(p).unwrap()));
@@ -96,8 +98,19 @@ fn seq_replay() {
               let bad = v == &serde_json::Value::Bool(false) || v == &serde_json::Value::String("bad".into());
               if bad {
                 let key = (p.clone(), format!("{}|{}", case.root.sig(), serde_json::to_string(&case.cfg).unwrap()));
+                let first = !l2bad.contains_key(&key);
                 let e = l2bad.entry(key).or_insert((0, serde_json::json!({"root": case.root, "cfg": case.cfg, "rev": case.rev, "stims": case.stims, "leak1": case.leak1})));
                 e.0 += 1;
+                // the recorded execution of the first case of every (property, pipeline) goes to TLC trace validation
+                if first {
+                  if let Some(f) = bfile.as_mut() {
+                    let mut lines = vec![];
+                    seq::trace_lines(id, &case, &run, &mut lines);
+                    for l in lines {
+                      writeln!(f, "{l}").unwrap();
+                    }
+                  }
+                }
               }
             }
           }
